@@ -83,6 +83,7 @@ def run(chk):
                         sample=dict(obligation=key, draws=it.rng_calls, verdict=v) if n in (3, 8) else None)
     seed_rule(chk, facts)
     sequence_rule(chk)
+    race_rule(chk, facts, Env(facts))
     ns = len(facts.raw["statics"])
     chk.add("C19.no-static", "no static item in the crate", PROVED if ns == 0 else UNDECIDED, "%d statics" % ns)
     if chk.tier == "thorough":
@@ -91,6 +92,153 @@ def run(chk):
         chk.add("C19.feature", "random() absent without the rand feature", PROVED if not has else REFUTED, ", ".join(has))
     chk.notes["explanation"] = "bit provenance of random(): every table bit < 2^n is a distinct fresh generator bit, every other bit constant 0; rand itself is trusted"
     chk.notes["n_range"] = [0, nmax]
+
+
+def race_rule(chk, facts, env):
+    """C19.race: a read-modify-write of a `static` atomic done as load .. store (not fetch_add / fetch_update /
+    compare_exchange) in a body random() reaches.  Two threads that load the same state both derive the same next
+    state and the same output from it - random() hands the same words to both ("draws differ ... from any thread"
+    fails) - and a late store rewinds the stream.  Forward dataflow over the MIR body: which locals may hold a value
+    derived from `S.load()`; an assignment from something else kills it (so "load, and store a fresh seed when it was
+    0" is not flagged: that store does not depend on the load)."""
+    by_key = {b["key"]: b for b in facts.lib_bodies()}
+    # bodies reachable from random()
+    todo = [K.methods["random"] for K in env.kinds.values() if K.methods.get("random")]
+    seen = set()
+    reach = []
+    while todo:
+        b = todo.pop()
+        if b["key"] in seen:
+            continue
+        seen.add(b["key"])
+        reach.append(b)
+        for blk in b["mir"]["blocks"]:
+            t = blk["term"]
+            if t["k"] == "call":
+                f_ = t.get("func") or {}
+                for key in ((f_.get("resolved") or {}).get("key"), f_.get("key")):
+                    if key in by_key:
+                        todo.append(by_key[key])
+                for a_ in t["args"]:
+                    ck = ((a_.get("ty") or {}).get("key") if isinstance(a_, dict) and (a_.get("ty") or {}).get("k") == "closure" else None)
+                    if ck in by_key:
+                        todo.append(by_key[ck])
+            for st_ in blk["stmts"]:
+                if st_["k"] == "assign" and st_["rv"]["k"] == "aggregate" and (st_["rv"].get("agg") or {}).get("k") == "closure":
+                    ck = st_["rv"]["agg"].get("key")
+                    if ck in by_key:
+                        todo.append(by_key[ck])
+    sites = 0
+    for b in reach:
+        blocks = b["mir"]["blocks"]
+        # which static does a reference-typed local point to (flow-insensitive: such temporaries are assigned once)
+        ref_static = {}
+        changed = True
+        while changed:
+            changed = False
+            for blk in blocks:
+                for st_ in blk["stmts"]:
+                    if st_["k"] != "assign" or st_["place"].get("p"):
+                        continue
+                    rv, l = st_["rv"], st_["place"]["l"]
+                    src = None
+                    if rv["k"] in ("use", "cast"):
+                        op = rv.get("op") or {}
+                        if op.get("k") == "const" and op.get("static"):
+                            src = op["static"]
+                        elif op.get("k") in ("copy", "move"):
+                            src = ref_static.get(op["place"]["l"])
+                    elif rv["k"] in ("ref", "addr_of", "copy_for_deref"):
+                        src = ref_static.get(rv["place"]["l"])
+                    if src and ref_static.get(l) != src:
+                        ref_static[l] = src
+                        changed = True
+
+        def static_of(op):
+            if op.get("k") == "const":
+                return op.get("static")
+            if op.get("k") in ("copy", "move"):
+                return ref_static.get(op["place"]["l"])
+            return None
+
+        def op_locals(rv):
+            out = []
+            def walk(x):
+                if isinstance(x, dict):
+                    if x.get("k") in ("copy", "move") and "place" in x:
+                        out.append(x["place"]["l"])
+                    elif "l" in x and "p" in x and isinstance(x.get("l"), int):
+                        out.append(x["l"])
+                    for v_ in x.values():
+                        walk(v_)
+                elif isinstance(x, list):
+                    for v_ in x:
+                        walk(v_)
+            walk(rv)
+            return out
+        has_atomic = any(blk["term"]["k"] == "call" and re.search(r"atomic::Atomic\w*(::<[^>]*>)?::(load|store)$", callee_path(blk["term"])) for blk in blocks)
+        if not has_atomic:
+            continue
+        IN = [dict() for _ in blocks]      # local -> set of statics its value may derive from a load of
+        work = [0]
+        visited = set()
+        found = {}
+        def join(dst, src):
+            ch = False
+            for l, ss in src.items():
+                cur = dst.get(l, frozenset())
+                if not ss <= cur:
+                    dst[l] = cur | ss
+                    ch = True
+            return ch
+        while work:
+            bi = work.pop()
+            cur = dict(IN[bi])
+            blk = blocks[bi]
+            for st_ in blk["stmts"]:
+                if st_["k"] != "assign":
+                    continue
+                l = st_["place"]["l"]
+                t_ = frozenset().union(*[cur.get(x, frozenset()) for x in op_locals(st_["rv"])]) if op_locals(st_["rv"]) else frozenset()
+                if st_["place"].get("p"):
+                    cur[l] = cur.get(l, frozenset()) | t_
+                else:
+                    cur[l] = t_
+            t = blk["term"]
+            succ = []
+            if t["k"] == "call":
+                cp = callee_path(t)
+                argt = frozenset().union(*[cur.get(x, frozenset()) for a_ in t["args"] for x in op_locals(a_)]) if t["args"] else frozenset()
+                m = re.search(r"atomic::Atomic\w*(::<[^>]*>)?::(load|store)$", cp)
+                if m and t["args"]:
+                    S_ = static_of(t["args"][0])
+                    if m.group(2) == "load" and S_:
+                        argt = argt | frozenset([S_])
+                    if m.group(2) == "store" and S_ and len(t["args"]) > 1:
+                        vt = frozenset().union(*[cur.get(x, frozenset()) for x in op_locals(t["args"][1])]) if op_locals(t["args"][1]) else frozenset()
+                        if S_ in vt:
+                            found[S_] = t
+                if t.get("dest") is not None and not t["dest"].get("p"):
+                    cur[t["dest"]["l"]] = argt
+                succ = [t["t"]] if t.get("t") is not None else []
+            elif t["k"] == "switch":
+                succ = [x[1] for x in t["arms"]] + [t["otherwise"]]
+            elif t["k"] in ("goto",):
+                succ = [t["t"]] if "t" in t else [t.get("target")]
+            elif t["k"] in ("assert", "drop"):
+                succ = [t["t"]]
+            for sb in succ:
+                if sb is None:
+                    continue
+                if join(IN[sb], cur) or sb not in visited:
+                    visited.add(sb)
+                    work.append(sb)
+        for S_, t in found.items():
+            sites += 1
+            chk.add("C19.race", "read-modify-write of the static %s in %s" % (S_, b["path"]), REFUTED,
+                    "the value stored into the static atomic %s derives from an earlier load of it in the same body (load .. store, not one atomic read-modify-write): two threads calling random() at the same time can load the same state and are handed the same words" % S_, where=where_of(b))
+    if not sites:
+        chk.add("C19.race", "no load..store update of a static atomic reachable from random()", PROVED, "%d bodies reachable" % len(reach))
 
 
 def sequence_rule(chk):
